@@ -127,6 +127,9 @@ uint64_t digest_shared() {
 uint64_t steps_now() {
     return 0;
 }
+size_t stack_hwm() {
+    return 0;
+}
 size_t live_lib_blocks() {
     return g_lib_live > 0 ? (size_t)g_lib_live : 0;
 }
